@@ -4,7 +4,7 @@
 From Coq Require Import List Bool ZArith.
 From Coq.Strings Require Import Byte.
 Import ListNotations.
-From SV Require Import Text G_submat_index C20_Model C20_Finite C20_Render C20_Num C20_Lemmas.
+From SV Require Import Text G_submat_index C20_Model C20_Finite C20_Render C20_Num C20_Lemmas C20_Round7.
 
 (* every bundled file is inside the domain, parses, and its name is its own upper-case form *)
 Theorem C20_bundled_wf : forall name raw, In (name, raw) submat_files ->
@@ -154,6 +154,80 @@ Proof.
 Qed.
 Print Assumptions C20_file_wins.
 
+(* ---------------------------------------------------------------- round 7 *)
+(* THE whole-result equation for user files: a matrix of numbers of ANY shape (more or fewer rows than columns, row letters
+   that are no header letters, short and long rows, repeated letters) written in ANY layout of the grammar (comment and blank
+   lines anywhere, arbitrary in-line white space before / between / after the words, LF / CRLF / CR, with or without a
+   terminator after the last line) loads as exactly the table: rows in file order (a repeated row letter replaces the earlier
+   row at its place), per row zip(letters, numbers) truncated to the shorter of the two, every number of a row that has a
+   decimal literal anywhere - also beyond the last header letter - read as float (row_vals) *)
+Theorem C20_parse_render_matrix : forall e final mf, mfile_ok mf = true ->
+  parse (render_with e final (to_afile mf)) = Some (expected_rows (mf_letters mf) (mf_body mf)).
+Proof. exact parse_render_matrix. Qed.
+Print Assumptions C20_parse_render_matrix.
+
+(* with pairwise different header letters and row letters the result is literally the table *)
+Theorem C20_parse_render_matrix_nodup : forall e final mf, mfile_ok mf = true ->
+  NoDup (mf_letters mf) -> NoDup (map fst (body_rows (mf_body mf))) ->
+  parse (render_with e final (to_afile mf)) =
+  Some (map (fun rv => (fst rv, combine (mf_letters mf) (row_vals (snd rv)))) (body_rows (mf_body mf))).
+Proof. exact parse_render_matrix_nodup. Qed.
+Print Assumptions C20_parse_render_matrix_nodup.
+
+(* comment / blank lines are irrelevant wherever they stand, for arbitrary text lines and every parser state *)
+Theorem C20_skipped_lines_irrelevant : forall ls1 ls2 st mat,
+  filter (fun l => negb (skipped l)) ls1 = filter (fun l => negb (skipped l)) ls2 ->
+  parse_lines ls1 st mat = parse_lines ls2 st mat.
+Proof. exact skipped_lines_irrelevant. Qed.
+Print Assumptions C20_skipped_lines_irrelevant.
+Theorem C20_insert_skipped_line : forall a b l st mat, skipped l = true ->
+  parse_lines (a ++ l :: b) st mat = parse_lines (a ++ b) st mat.
+Proof. exact insert_skipped_line. Qed.
+Print Assumptions C20_insert_skipped_line.
+
+(* the reader of a cell is chosen per ROW: an integer literal in a row with a decimal point is read by float() *)
+Theorem C20_row_kind : forall n vals,
+  parse_vals (existsb has_dot (map render_num vals)) (firstn n (map render_num vals)) = Some (firstn n (row_vals vals)) /\
+  existsb has_dot (map render_num vals) = negb (forallb is_int_num vals).
+Proof. exact (fun n vals => conj (parse_vals_row n vals) (row_has_dot vals)). Qed.
+Print Assumptions C20_row_kind.
+
+(* histories (submat since 0feda3c has no cache): in EVERY history of calls and caller-side edits, the i-th call hands out a
+   NEW object (identity = number of objects handed out before) whose content is the pure function of the argument and the
+   current file content, whatever was returned or edited before *)
+Theorem C20_calls_independent : forall steps heap, fst (hrun steps heap) = obs_spec steps (length heap).
+Proof. exact hrun_obs. Qed.
+Print Assumptions C20_calls_independent.
+(* ... and at the end an object holds its own result with exactly the edits addressed to IT *)
+Theorem C20_objects_independent : forall steps heap j o, nth_error heap j = Some o ->
+  nth_error (snd (hrun steps heap)) j = Some (edits_for j steps (length heap) o).
+Proof. exact hrun_old_object. Qed.
+Print Assumptions C20_objects_independent.
+(* the variant with functools.lru_cache (before 0feda3c) violates this: model of the fixed defect F41 *)
+Theorem C20_cached_variant_refuted : fst (hrun_cached cached_witness [] []) <> obs_spec cached_witness 0.
+Proof. exact cached_refuted. Qed.
+Print Assumptions C20_cached_variant_refuted.
+
+(* name resolution in a directory of files, directories and symbolic links: what leads to a regular file is parsed (whatever
+   the name spells); a directory, a missing entry, a dangling link and a link loop leave the decision to the bundled names *)
+Theorem C20_fs_resolution : forall d name,
+  (forall c, fs_file max_links d name = Some c -> submat_fs d name = submat_file c) /\
+  (fs_file max_links d name = None -> submat_fs d name = submat_name name) /\
+  (forall n c, dict_get name d = Some (FReg c) -> fs_file (S n) d name = Some c) /\
+  (forall n, dict_get name d = Some FDir -> fs_file n d name = None) /\
+  (forall n, dict_get name d = None -> fs_file n d name = None) /\
+  (forall n t, dict_get name d = Some (FLink t) -> fs_file (S n) d name = fs_file n d t) /\
+  (forall n t, dict_get name d = Some (FLink t) -> dict_get t d = None -> fs_file n d name = None) /\
+  (forall n, dict_get name d = Some (FLink name) -> fs_file n d name = None) /\
+  (forall n b, dict_get name d = Some (FLink b) -> dict_get b d = Some (FLink name) -> fs_file n d name = None).
+Proof.
+  exact (fun d name => conj (proj1 (fs_resolution d name)) (conj (proj2 (fs_resolution d name))
+    (conj (fun n c => fs_regular n d name c) (conj (fun n => fs_directory n d name) (conj (fun n => fs_missing n d name)
+    (conj (fun n t => fs_link n d name t) (conj (fun n t => fs_dangling n d name t) (conj (fun n => fs_self_loop n d name)
+    (fun n b H1 H2 => proj1 (fs_two_loop n d name b H1 H2)))))))))).
+Qed.
+Print Assumptions C20_fs_resolution.
+
 (* non-vacuity: a user file with a comment, a blank line, CRLF line ends, an integer row and a decimal row *)
 Example C20_witness :
   wf_content (unhex (bs "2320630d0a0d0a2020412020420d0a412020312020322e350d0a42092d3209370d0a"%bs)) = true /\
@@ -188,3 +262,25 @@ Example C20_witness_file_wins : exists (name raw : str),
 X 42"%bs)) = OMatrix [(bs "X"%bs, [(bs "X"%bs, NInt 42)])] /\
   submat_call name None = parsed raw.
 Proof. exact witness_file_wins. Qed.
+Example C20_witness_matrix :
+  mfile_ok (MFile [AComment [] (bs " rectangular, mixed"%bs); ABlank (bs " "%bs)] (bs "  "%bs) (bs "a"%bs) [(bs "   "%bs, bs "b"%bs)] []
+     [MRow [] (bs "a"%bs) [(bs " "%bs, NDec 15 1); ([x09], NInt 0)] [];
+      MSkip (AComment (bs " "%bs) (bs "x"%bs));
+      MRow [] (bs "x"%bs) [(bs " "%bs, NInt (-1)); (bs "  "%bs, NInt 2); (bs " "%bs, NDec 5 1)] (bs " "%bs)]) = true /\
+  expected_rows [bs "a"%bs; bs "b"%bs]
+     [MRow [] (bs "a"%bs) [(bs " "%bs, NDec 15 1); ([x09], NInt 0)] [];
+      MSkip (AComment (bs " "%bs) (bs "x"%bs));
+      MRow [] (bs "x"%bs) [(bs " "%bs, NInt (-1)); (bs "  "%bs, NInt 2); (bs " "%bs, NDec 5 1)] (bs " "%bs)] =
+  [(bs "a"%bs, [(bs "a"%bs, NDec 15 1); (bs "b"%bs, NDec 0 0)]);
+   (bs "x"%bs, [(bs "a"%bs, NDec (-1) 0); (bs "b"%bs, NDec 2 0)])].
+Proof. exact (conj eq_refl eq_refl). Qed.
+Example C20_witness_history : fst (hrun cached_witness []) = obs_spec cached_witness 0 /\
+  exists m, nth_error (obs_spec cached_witness 0) 2 = Some (Some (1%nat, OMatrix m)) /\ (4 <= length m)%nat.
+Proof. exact uncached_witness_ok. Qed.
+Example C20_witness_fs :
+  fs_file max_links [(bs "nuc"%bs, FLink (bs "t"%bs)); (bs "t"%bs, FReg (bs "X
+X 1"%bs)); (bs "pam"%bs, FDir)] (bs "nuc"%bs) = Some (bs "X
+X 1"%bs) /\
+  submat_fs [(bs "nuc"%bs, FLink (bs "t"%bs)); (bs "t"%bs, FReg (bs "X
+X 1"%bs)); (bs "pam"%bs, FDir)] (bs "nuc"%bs) = OMatrix [(bs "X"%bs, [(bs "X"%bs, NInt 1)])].
+Proof. exact (conj eq_refl eq_refl). Qed.
